@@ -22,7 +22,9 @@ LEAN_MODULES = ['ThermoVerif.Props.C09', 'ThermoVerif.Props.C09Store', 'ThermoVe
 RULE = ('operation histories on shared SparseVector / SparseLogicalVector / SparseArray objects; values are dyadic '
         'rationals (exact in binary64), divisors ±2^j; every run enumerates the operand-kind × operator × '
         'shape-relation grid completely (vector, logical vector and array targets, binary / in-place / reflected, '
-        'indexing forms × value shapes, reductions × axis × keepdims, read-only targets), then draws random histories '
+        'indexing forms × value shapes, reductions × axis × keepdims, read-only targets; and the all-zero-operand grid: '
+        'target kind × operand kind × operator × shape relation × which side holds no entry, the empty side built from zeros '
+        'or emptied by cancellation / `*= 0` / `x -= x` / clear() / `x[:] = 0` in rotation), then draws random histories '
         'of ≤30 operations generated adaptively on the real objects; the thorough tier is exhaustive for pairs of '
         'vectors of size ≤3 over {0, a, −a, 1/2} (+, −, ×, comparisons; ÷ over {0, ±2, 1/2}) and for pairs of logical '
         'vectors of size ≤3 (every operator), binary and in place, sparse and dense operand; a case is non-trivial '
@@ -685,18 +687,44 @@ def oracle(W, line, t, err, value, npval, nperr, has_np, target, changed, fresh,
 # running a case
 # --------------------------------------------------------------------------
 
-def run_ops(ops):
+def all_zero(o):
+    """the object holds no stored entry (built as zeros or emptied by earlier operations)"""
+    if o.__class__ is SV: return not o.dct
+    if o.__class__ is SLV: return not o.set
+    if o.__class__ is SA: return all(all_zero(r) for r in o.rows)
+    return False
+
+
+def zero_tags(W, line):
+    """which side of a binary / in-place operator is an all-zero sparse object right now"""
+    t = line.split(' ')
+    if t[0] not in ('bin', 'ibin') or len(t) < 4: return None
+    try:
+        a = W.ref(t[2]); b = W.ref(t[3]) if t[3].startswith('@') else None
+    except (IndexError, ValueError):
+        return None
+    za, zb = all_zero(a), (b is not None and all_zero(b))
+    if not (za or zb): return None
+    return 'both' if za and zb else ('self' if za else 'other')
+
+
+def run_ops(ops, tags=None):
     W = World()
     outs, failures, dead = [], [], False
     nontrivial = False
     for i, line in enumerate(ops):
         if dead:
             outs.append('dead'); continue
+        z = zero_tags(W, line) if tags is not None else None
         try:
             ans, fails, dies = apply(W, line)
         except Rejected:
             outs.append('bad-op'); dead = True; continue
         outs.append(ans)
+        if z and not ans.startswith('skip'):
+            tags.add('zero-operand:' + z)
+            if ' np=err' in ans: tags.add('zero-operand:numpy-rejects')
+            if ' np=err' in ans and line.split(' ')[3].startswith('@'): tags.add('zero-operand:numpy-rejects:sparse-pair')
         if '=' in ans.split(' | ')[0] and any(ch in ans for ch in '123456789'): nontrivial = True
         for f in fails:
             f['op_index'] = i
@@ -706,8 +734,8 @@ def run_ops(ops):
 
 
 def run_impl(case: Case) -> ImplResult:
-    W, outs, failures, nontrivial = run_ops(case.ops)
     tags = set()
+    W, outs, failures, nontrivial = run_ops(case.ops, tags)
     for l, o in zip(case.ops, outs):
         t = l.split(' ')
         tags.add(t[0] + (':' + t[1] if t[0] in ('bin', 'ibin', 'rbin', 'red') else ''))
@@ -823,10 +851,12 @@ class Gen:
     def do(self, line):
         self.ops.append(line)
         try:
-            _, _, dead = apply(self.W, line)
+            _, fails, dead = apply(self.W, line)
         except Rejected:
             self.alive = False; return
         if dead or not self.W.values_small(): self.alive = False
+        # an operation that should have been rejected left an object the model does not have: the history ends here
+        if any(f['signature'].startswith('not-rejected') for f in fails): self.alive = False
 
     # ---- picking ------------------------------------------------------------
     def ids(self, cls=None, pred=None):
@@ -841,6 +871,7 @@ class Gen:
 
     def new_vec(self, n=None, pow2=False, kind=None, zero_p=0.35):
         n = self.pick_size() if n is None else n
+        if not pow2 and self.rng.random() < 0.06: zero_p = 1.0       # an all-zero vector
         vals = gen_vals(self.rng, n, self.a, pow2, zero_p)
         r = self.rng.random()
         if r < 0.7: self.do('new ' + vec_lit(self.rng, vals, kind))
@@ -862,6 +893,10 @@ class Gen:
         elif r < 0.9: m = 1
         else: m = size
         kind = rng.random()
+        if rng.random() < 0.05:
+            # an all-zero sparse object of any size: shape rules must not depend on the stored entries
+            z = self.ok_ids((SV, SLV), all_zero)
+            if z: return f'@{rng.choice(z)}'
         if kind < 0.2:
             return scalar_lit(rng, gen_value(rng, self.a, pow2, 0.15))
         if kind < 0.55:
@@ -873,10 +908,25 @@ class Gen:
         return tok
 
     # ---- SparseArray / SparseLogicalVector -----------------------------------------
+    def empty_out(self, a):
+        """leave object `a` all-zero through one of the operations that can do so"""
+        rng = self.rng
+        o = self.W.objs[a]
+        if o.__class__ is SLV:
+            how = rng.choice([f'ibin and @{a} Pb:0', f'ibin xor @{a} @{a}', f'set @{a} s_:_:_ Pb:0', f'ibin mul @{a} Pb:0'])
+        else:
+            hows = [f'clear @{a}', f'ibin mul @{a} Pf:0', f'ibin sub @{a} @{a}', f'set @{a} s_:_:_ Pf:0']
+            if o.__class__ is SV and o.size <= 6:
+                hows.append(f'ibin add @{a} ' + lit_token('P', 'f', [o.size], [-float(o.dct.get(i, 0.0)) for i in range(o.size)]))
+            if o.__class__ is SA and o.dtype is bool: hows = [f'clear @{a}', f'ibin and @{a} Pb:0', f'ibin xor @{a} @{a}']
+            how = rng.choice(hows)
+        self.do(how)
+
     def new_array(self, m=None, n=None, boolean=False, pow2=False):
         rng = self.rng
         m = m or rng.choice([1, 2, 2, 3]); n = n or self.pick_size()
         vals = gen_vals(rng, m * n, self.a, pow2, 0.4)
+        if not pow2 and rng.random() < 0.05: vals = [0.0] * (m * n)
         if boolean: vals = [float(v != 0) for v in vals]
         self.do('new ' + lit_token(rng.choice('PN'), 'b' if boolean else 'f', [m, n], vals))
         return len(self.W.objs) - 1
@@ -898,6 +948,9 @@ class Gen:
         def vals(k):
             v = gen_vals(rng, k, self.a, pow2, 0.05 if pow2 else 0.3)
             return [float(x != 0) for x in v] if bt == 'b' else v
+        if rng.random() < 0.05:
+            z = self.ok_ids((SV, SLV, SA), lambda o: all_zero(o) and (o.__class__ is not SA or len(o.rows) in (m, 1)))
+            if z: return f'@{rng.choice(z)}'
         if r < 0.15:
             x = gen_value(rng, self.a, pow2, 0.15)
             return scalar_lit(rng, float(x != 0), 'Pb') if bt == 'b' else scalar_lit(rng, x, rng.choice(['Pf', 'Pf', 'Nf']))
@@ -986,9 +1039,11 @@ class Gen:
         o = self.W.objs[a]
         m, n = len(o.rows), o.vector_size
         boolean = o.dtype is bool
-        kind = rng.choices(['bin', 'ibin', 'rbin', 'get', 'set', 'red', 'unary', 'copy', 'query', 'flags', 'clear', 'rowop'],
-                           [20, 20, 3, 12, 14, 12, 4, 3, 4, 2, 1, 5])[0]
-        if kind == 'bin':
+        kind = rng.choices(['bin', 'ibin', 'rbin', 'get', 'set', 'red', 'unary', 'copy', 'query', 'flags', 'clear', 'rowop', 'zero'],
+                           [20, 20, 3, 12, 14, 12, 4, 3, 4, 2, 1, 5, 2])[0]
+        if kind == 'zero':
+            self.empty_out(a)
+        elif kind == 'bin':
             ops = (('add', 'mul', 'truediv', 'and', 'or', 'xor', 'sub') + CMP) if boolean else (ARITH * 3 + CMP + ('and',))
             op = rng.choice(ops)
             self.do(f'bin {op} @{a} {self.array_operand(m, n, boolean, pow2=(op == "truediv"))}')
@@ -1048,11 +1103,16 @@ class Gen:
         rng = self.rng
         o = self.W.objs[a]
         n = o.size
-        kind = rng.choices(['bin', 'ibin', 'rbin', 'get', 'set', 'red', 'unary', 'copy', 'query'],
-                           [25, 25, 3, 10, 12, 10, 6, 4, 5])[0]
+        kind = rng.choices(['bin', 'ibin', 'rbin', 'get', 'set', 'red', 'unary', 'copy', 'query', 'zero'],
+                           [25, 25, 3, 10, 12, 10, 6, 4, 5, 2])[0]
+        if kind == 'zero':
+            self.empty_out(a); return
         def operand(pow2=False):
             r = rng.random()
             m = n if rng.random() < 0.85 else rng.choice([1, n + 1])
+            if rng.random() < 0.05:
+                z = self.ok_ids((SV, SLV), all_zero)
+                if z: return f'@{rng.choice(z)}'
             if r < 0.2: return scalar_lit(rng, float(rng.random() < 0.6), 'Pb')
             if r < 0.3: return scalar_lit(rng, gen_value(rng, self.a, pow2, 0.2), 'Pf')
             if r < 0.55:
@@ -1123,9 +1183,12 @@ class Gen:
             self.new_vec(); return
         kind = rng.choices(
             ['bin', 'ibin', 'rbin', 'get', 'set', 'red', 'unary', 'copy', 'query', 'flags', 'mixfrom', 'clear',
-             'remneg', 'copylike', 'new', 'cmpuse', 'deviate'],
-            [22, 24, 4, 8, 12, 6, 3, 3, 5, 2, 3, 1, 1, 1, 5, 3, 1])[0]
+             'remneg', 'copylike', 'new', 'cmpuse', 'deviate', 'zero'],
+            [22, 24, 4, 8, 12, 6, 3, 3, 5, 2, 3, 1, 1, 1, 5, 3, 1, 2])[0]
         a = rng.choice(vecs)
+        if kind == 'zero':
+            if not self.W.objs[a].read_only: self.empty_out(a)
+            return
         o = self.W.objs[a]
         n = o.size
         if kind == 'bin':
@@ -1370,7 +1433,101 @@ def grid_cases(rng):
         for how in ('setflags @0', 'setro @0 1'):
             cases.append(Case(['new Pf3:1,0,-2', 'new Pf3:0,1,1', how, mut, 'toarray @0', 'setro @0 0', mut, 'toarray @0'],
                               {'kind': 'grid', 'cell': 'readonly'}))
-    cases += grid_logical(rng) + grid_array(rng)
+    cases += grid_logical(rng) + grid_array(rng) + grid_zero(rng)
+    return cases
+
+
+class _Build:
+    """op list with the bookkeeping of object ids (`new` of an m×n literal registers m rows, then the array)"""
+    def __init__(self): self.ops, self.nid = [], 0
+
+    def vec(self, ty, vals):
+        self.ops.append('new ' + lit_token('P', ty, [len(vals)], vals)); self.nid += 1
+        return self.nid - 1
+
+    def mat(self, ty, m, n, vals):
+        self.ops.append('new ' + lit_token('P', ty, [m, n], vals)); self.nid += m + 1
+        return self.nid - 1
+
+
+def grid_zero(rng):
+    """all-zero operands: target kind × operand kind × operator × shape relation × which side holds no entry, the
+    empty side produced in turn by every operation that can empty an object (built from zeros, exact cancellation,
+    `*= 0`, `x -= x`, `clear()`, `x[:] = 0`).  Shape rules must not depend on the stored entries."""
+    cases = []
+    rels = {'eq': lambda n: (n, n), 'self1': lambda n: (1, n), 'other1': lambda n: (n, 1), 'mismatch': lambda n: (n, n + 1),
+            'mismatch2': lambda n: (n + 1, n)}
+    counter = [0]
+
+    def nonzero(k, pow2, boolean=False):
+        while True:
+            v = gen_vals(rng, k, 1.0, pow2, 0.1 if pow2 else 0.3)
+            if any(v): return [float(x != 0) for x in v] if boolean else v
+
+    def make(B, kind, shape, zero, pow2):
+        """one sparse object of the kind, all-zero if asked (by the next way of emptying, in rotation)"""
+        m, n = shape
+        k = n if m is None else m * n
+        boolean = kind in ('SLV', 'SAb')
+        ty = 'b' if boolean else 'f'
+        new = (lambda vals: B.vec(ty, vals)) if m is None else (lambda vals: B.mat(ty, m, n, vals))
+        if not zero: return new(nonzero(k, pow2, boolean))
+        ways = {'SV': ['zeros', 'newsize', 'cancel', 'mul0', 'selfsub', 'clear', 'set0'],
+                'SLV': ['zeros', 'and0', 'xorself', 'set0b', 'mul0b'],
+                'SA': ['zeros', 'cancel', 'mul0', 'selfsub', 'clear', 'set0'],
+                'SAb': ['zeros', 'and0', 'xorself', 'clear']}[kind]
+        counter[0] += 1
+        way = ways[counter[0] % len(ways)]
+        if way == 'zeros': return new([0.0] * k)
+        if way == 'newsize':
+            B.ops.append(f'newsize {n}'); B.nid += 1; return B.nid - 1
+        vals = nonzero(k, pow2, boolean)
+        x = new(vals)
+        if way == 'cancel': B.ops.append(f'ibin add @{x} ' + lit_token('P', 'f', [n] if m is None else [m, n], [-v for v in vals]))
+        elif way == 'mul0': B.ops.append(f'ibin mul @{x} Pf:0')
+        elif way == 'mul0b': B.ops.append(f'ibin mul @{x} Pb:0')
+        elif way == 'selfsub': B.ops.append(f'ibin sub @{x} @{x}')
+        elif way == 'clear': B.ops.append(f'clear @{x}')
+        elif way == 'set0': B.ops.append(f'set @{x} s_:_:_ Pf:0')
+        elif way == 'set0b': B.ops.append(f'set @{x} s_:_:_ Pb:0')
+        elif way == 'and0': B.ops.append(f'ibin and @{x} Pb:0')
+        elif way == 'xorself': B.ops.append(f'ibin xor @{x} @{x}')
+        return x
+
+    plans = [
+        # target kind, operand kinds, binary operators, in-place operators
+        ('SV', ['SV', 'SLV', 'SA', 'SA1', 'list', 'nd', 'mat'], ARITH + CMP + LOGIC, ARITH + LOGIC),
+        ('SLV', ['SLV', 'SV', 'listb', 'list'], ('add', 'sub', 'mul', 'truediv', 'and', 'or', 'xor') + CMP,
+         ('add', 'sub', 'mul', 'truediv', 'and', 'or', 'xor')),
+        ('SA', ['SV', 'SLV', 'SA', 'SA1', 'SAb', 'list', 'mat'], ARITH + CMP + ('and',), ARITH + ('and',)),
+        ('SAb', ['SLV', 'SAb', 'SA', 'listb'], ('add', 'mul', 'and', 'or', 'xor', 'eq'), ('add', 'mul', 'and', 'or', 'xor')),
+    ]
+    for tk, okinds, binops, iops in plans:
+        for inplace in (False, True):
+            for op in (iops if inplace else binops):
+                for ok in okinds:
+                    literal = ok in ('list', 'nd', 'mat', 'listb')
+                    for rel in rels:
+                        for zero in ('self', 'other', 'both'):
+                            if literal and zero == 'both' and rel in ('self1', 'other1'): continue
+                            n = rng.choice([2, 3, 4]); m = rng.choice([2, 3])
+                            sn, on = rels[rel](n)
+                            pow2 = op == 'truediv'
+                            B = _Build()
+                            t = make(B, tk, (m if tk in ('SA', 'SAb') else None, sn), zero in ('self', 'both'), False)
+                            oz = zero in ('other', 'both')
+                            if literal:
+                                rows = {'list': None, 'nd': None, 'listb': None, 'mat': (m if tk in ('SA', 'SAb') else 2)}[ok]
+                                k = on if rows is None else rows * on
+                                vals = [0.0] * k if oz else nonzero(k, pow2, ok == 'listb')
+                                b = lit_token('N' if ok == 'nd' else 'P', 'b' if ok == 'listb' else 'f',
+                                              [on] if rows is None else [rows, on], vals)
+                            else:
+                                om = {'SV': None, 'SLV': None, 'SA1': 1}.get(ok, m if tk in ('SA', 'SAb') else 2)
+                                b = f"@{make(B, 'SA' if ok == 'SA1' else ok, (om, on), oz, pow2)}"
+                            B.ops.append(f'{"ibin" if inplace else "bin"} {op} @{t} {b}')
+                            B.ops.append(f'toarray @{t}')
+                            cases.append(Case(B.ops, {'kind': 'grid', 'cell': f'zero/{tk}/{"i" if inplace else ""}{op}/{ok}/{rel}/{zero}'}))
     return cases
 
 
